@@ -4,15 +4,18 @@ from vlib import world
 from .sampler_steps import call, ident
 
 
-def mk_points(W, n, d, name='x'):
+def mk_points(W, n, d, name='x', free=()):
+    """points in the unit cube; coordinates listed in `free` are arbitrary
+    reals (non-periodic coordinates must be untouched whatever they are)"""
     np = W.np
     rows = []
     for j in range(n):
         row = []
         for k in range(d):
             v = W.real('%s_%d_%d' % (name, j, k))
-            W.assume(v >= 0)
-            W.assume(v < 1)
+            if k not in free:
+                W.assume(v >= 0)
+                W.assume(v < 1)
             row.append(v)
         rows.append(row)
     return np.array(rows, dtype=float), rows
@@ -34,7 +37,8 @@ def frame(W, cfg):
         W.assume(c < 1)
         cs.append(c)
     s.centers = np.array(cs, dtype=float) if cs else np.zeros(0)
-    pts, rows = mk_points(W, n, d)
+    pts, rows = mk_points(W, n, d,
+                          free=[k for k in range(d) if k not in periodic])
     for inverse in (False, True):
         tag = '-inverse' if inverse else ''
         ok, out = call(W, 'C16:transform-no-raise',
